@@ -45,6 +45,12 @@ Theorem C13_int_scalar_broadcast :
 Proof. exact form_int. Qed.
 Print Assumptions C13_int_scalar_broadcast.
 
+(* numpy.ndarray time arguments behave exactly like JAX arrays (converted by validate_array first) *)
+Theorem C13_numpy_times_same :
+  forall x k sh d nf c, vtx x (VNpArr k sh d) nf (VBool c) = vtx x (VArr k sh d) nf (VBool c).
+Proof. exact numpy_times_same. Qed.
+Print Assumptions C13_numpy_times_same.
+
 (* refusals are ValueErrors *)
 Theorem C13_wrong_length_refused :
   forall n d xs ts, Z.of_nat (length ts) <> n -> Z.of_nat (length ts) <> 1 ->
